@@ -195,6 +195,8 @@ class Rig:
                         imputer = MarginalImputer(self.model_fn, self.imputer_kind, self.storage)
                     elif self.imputer_kind == "default":
                         self.default_values = {f: Q(self.rng.randint(-4, 4), self.rng.randint(1, 3)) for f in self.names}
+                        # falsy defaults (0, 0.0, False) are legitimate configured values
+                        self.default_values[self.names[self.rng.randrange(len(self.names))]] = self.rng.choice([0, 0.0, Q(0), False])
                         imputer = DefaultImputer(self.model_fn, dict(self.default_values))
                 common = dict(model_function=self.model_fn, loss_function=self.loss_fn, feature_names=self.names)
                 if self.kind in ("pfi", "sage"):
@@ -237,11 +239,13 @@ class Rig:
             rec = {"subset": subset_copy, "n": n_samples, "preds": None, "entry": entry, "rows": [],
                    "raw_subset_type": type(feature_subset).__name__}
             rig.imp_calls.append(rec)
+            mlog0 = len(rig.model_log)
             try:
                 preds = orig(feature_subset=feature_subset, x_i=x_i, **kwargs)
                 rec["preds"] = [rig.cdict(p) for p in preds]
                 return preds
             finally:
+                rec["inputs"] = [list(k) for k, _ in rig.model_log[mlog0:]]
                 if rig.draws is not None:
                     rec["rows"] = [v for k, _, v in rig.draws.log[draws_before:] if k == "index"]
         imp.impute = impute
@@ -372,6 +376,8 @@ class Rig:
         """request for `pfi_run` / `sage_run` over the recorded steps (steps that raised are not included)"""
         steps = []
         for rec in self.steps:
+            if rec["error"] is not None:
+                continue  # a call that raised leaves the estimates untouched (C17): it is not a step of the pure model
             s = {"x": rec["x"], "y": rec["y"], "imp": self.imp_table(rec)}
             if self.kind == "sage":
                 s["perm"] = rec["perm"] if rec["perm"] is not None else (rec["perm_drawn"][-1] if rec["perm_drawn"] else [])
